@@ -147,7 +147,11 @@ impl<'a, K: Ord + Clone, V: Clone> ItemIterator<'a, K, V> {
     #[inline]
     fn try_get_next_item(&mut self, leaf: &'a LeafNode<K, V>) -> Option<(&'a K, &'a V)> {
         // Single bounds check - if index is out of bounds, no items available
-        if self.current_leaf_index >= leaf.keys_len() {
+        // (also bounded by values_len(): the node helpers are public and can
+        // leave the two vectors with different lengths)
+        if self.current_leaf_index >= leaf.keys_len()
+            || self.current_leaf_index >= leaf.values_len()
+        {
             return None;
         }
 
@@ -376,7 +380,8 @@ impl<'a, K: Ord + Clone, V: Clone> FastItemIterator<'a, K, V> {
         let leftmost_id = tree.get_first_leaf_id();
 
         // Get the initial leaf reference if we have a starting leaf
-        let current_leaf_ref = leftmost_id.map(|id| unsafe { tree.get_leaf_unchecked(id) });
+        // Checked lookup: the root reference can be stale after public arena helper calls
+        let current_leaf_ref = leftmost_id.and_then(|id| tree.get_leaf(id));
 
         Self {
             tree,
@@ -417,7 +422,8 @@ impl<'a, K: Ord + Clone, V: Clone> Iterator for FastItemIterator<'a, K, V> {
             // Move to next leaf - this is the ONLY arena access during iteration
             if leaf.next != NULL_NODE {
                 self.current_leaf_id = Some(leaf.next);
-                self.current_leaf_ref = unsafe { Some(self.tree.get_leaf_unchecked(leaf.next)) };
+                // Checked lookup: `next` is settable through the public set_leaf_next()
+                self.current_leaf_ref = self.tree.get_leaf(leaf.next);
                 self.current_leaf_index = 0;
             } else {
                 self.finished = true;
